@@ -92,14 +92,14 @@ func c15Polarity(c *Ctx) {
 					continue
 				}
 				n++
-				entry := strip(b)
+				entry := cellSource(strip(b))
 				fresh := func(a Atom) bool {
 					e, l, ok := w.timeOrder(a)
 					if !ok {
 						return false
 					}
 					be, isE := isLoadOf(l, "ExpireBackend.expire")
-					return isE && strip(be) == entry && w.isNow(e)
+					return isE && cellSource(strip(be)) == entry && w.isNow(e)
 				}
 				stale := func(a Atom) bool { // now > expire written the other way round: expire < now
 					e, l, ok := w.timeOrder(a)
@@ -107,7 +107,7 @@ func c15Polarity(c *Ctx) {
 						return false
 					}
 					be, isE := isLoadOf(e, "ExpireBackend.expire")
-					return isE && strip(be) == entry && w.isNow(l)
+					return isE && cellSource(strip(be)) == entry && w.isNow(l)
 				}
 				good := w.requires(f, r, fresh, true) || w.requires(f, r, stale, false)
 				c.check(good, rule, "GetBackend/honoured-only-unexpired", w.ipos(r), "a pin is honoured only while expire > now", "the stored backend is returned without the test expire > now (an expired pin is honoured, or the comparison is inverted)", "guard: value.expire.After(time.Now())")
@@ -149,7 +149,7 @@ func c15Polarity(c *Ctx) {
 				if !isE || !w.isNow(l) {
 					return false
 				}
-				ex, isX := strip(be).(*ssa.Extract)
+				ex, isX := cellSource(strip(be)).(*ssa.Extract)
 				return isX && ex.Tuple == ssa.Value(rl.Next)
 			}
 			for _, b := range f.Blocks {
@@ -219,7 +219,11 @@ func c15AddBackend(c *Ctx) {
 		return
 	}
 	var expireVal, backendVal ssa.Value
-	if al, ok := strip(pin.Value).(*ssa.Alloc); ok {
+	pinVal := strip(pin.Value)
+	if ld, isLd := pinVal.(*ssa.UnOp); isLd && ld.Op == token.MUL { // a pin stored by value: the literal is loaded whole
+		pinVal = ld.X
+	}
+	if al, ok := pinVal.(*ssa.Alloc); ok {
 		for _, r := range *al.Referrers() {
 			if fa, ok := r.(*ssa.FieldAddr); ok {
 				for _, rr := range *fa.Referrers() {
@@ -605,4 +609,26 @@ func c15Wiring(c *Ctx) {
 		c.check(allVals(lo, func(v ssa.Value) bool { return w.resultOfCallTo(v, "getDefaultDialogTimeout", 0) != nil }), rule, "startProxy/default-otherwise", w.ipos(np), "otherwise the default", "without a positive dialogTimeout the value passed on is "+describe(w, lo)+", expected getDefaultDialogTimeout()")
 	}
 	c.floor(rule, 4)
+}
+
+
+// cellSource: a table entry kept by value is copied into a local variable before its fields are read (`v := m[k]`):
+// the entry is what was stored, whole and once, into that variable; any other value is its own source.
+func cellSource(v ssa.Value) ssa.Value {
+	al, ok := v.(*ssa.Alloc)
+	if !ok || al.Heap || al.Referrers() == nil {
+		return v
+	}
+	var src ssa.Value
+	n := 0
+	for _, r := range *al.Referrers() {
+		if st, isSt := r.(*ssa.Store); isSt && st.Addr == ssa.Value(al) {
+			src = st.Val
+			n++
+		}
+	}
+	if n == 1 {
+		return strip(src)
+	}
+	return v
 }
